@@ -126,8 +126,17 @@ def gen_case(rng, maxleaves=12):
     pattern = rng.choice(PATTERNS + ["unit", "equal", "int", "dyadic"])
     unif = rng.choice([0.0, 0.0, 0.0, 0.15])
     t = random_tree(rng, n, pattern, unif)
+    kind = None
+    if rng.random() < 0.05:
+        # a seed with a single child (outside the theorems' domain: re-seeding turns the old seed into
+        # a taxon-less leaf); correspondence only.  to_outgroup_position / randomly_reorient are left
+        # out: they can leave the new seed attached below the detached old seed (C03's subject)
+        t = renumber({"id": 0, "taxon": None, "label": None, "len": t["len"], "kids": [t]})
+        t["kids"][0]["len"] = rng.choice([None, 512, 1024]) if pattern not in ("none",) else None
+        kind = rng.choice(["Reseed", "RerootNode", "RerootEdge", "Midpoint", "Ladderize", "Rotate", "Suppress",
+                           "CollapseBasal", "Reorder"])
     return {"tree": t, "rooted": rng.choice([None, True, False]), "pattern": pattern,
-            "op": gen_op(rng, t), "fresh": FRESH}
+            "op": gen_op(rng, t, kind), "fresh": FRESH}
 
 
 def exhaustive_cases(rng, maxleaves=6):
@@ -417,7 +426,7 @@ def oracle(case, obs):
     out, rooted_after = res[1], res[2]
     if obs.get("problems"):
         return ("%s left an ill-formed node structure: %s" % (kind, obs["problems"][:2]), "ill-formed-pointers:" + kind)
-    in_domain = True
+    in_domain = len(t["kids"]) >= 2     # a seed with one child turns into a leaf when the tree is re-seeded
     if kind in ("Reseed", "RerootNode") and not nodes[op[1]]["kids"]:
         in_domain = False      # F19: reseed_at / reroot_at_node are documented to take an internal node
     if kind == "Reorient" and obs["script"] and obs["script"][0] is not None:
@@ -461,6 +470,8 @@ def oracle(case, obs):
         if not out["kids"] or out["kids"][0]["id"] != op[1]:
             return ("to_outgroup_position: outgroup node %d is not the first child of the root" % op[1],
                     "outgroup-not-first")
+    if len(t["kids"]) < 2:
+        return None
     if kind == "RerootEdge":
         l1, l2 = op[2], op[3]
         head = nodes[op[1]]
